@@ -47,7 +47,7 @@ def run(module, cfg=None, env=None, workers=4, timeout=900, simulate=None, depth
     md = tempfile.mkdtemp(prefix="tlcmd.", dir=os.environ.get("VERIF_SCRATCH", "/tmp"))
     e = dict(os.environ)
     if env: e.update({k: str(v) for k, v in env.items()})
-    jopts = "-Xmx%s -XX:+UseParallelGC" % heap
+    jopts = "-Xmx%s -Xss256m -XX:+UseParallelGC" % heap
     if dfs:
         jopts += " -Dtlc2.tool.queue.IStateQueue=StateDeque"
     cmd = ["java"] + jopts.split() + ["-cp", JAR + ":/opt/veriftools/tla/CommunityModules-deps.jar", "tlc2.TLC"]
